@@ -182,7 +182,7 @@ func runSpecialLeaf(c *core.Ctx) {
 				var conj []ast.Expr
 				var split func(e ast.Expr)
 				split = func(e ast.Expr) {
-					e = ast.Unparen(e)
+					e = ast.Unparen(resolve(e)) // a single-assignment local (isLeaf := a && b) stands for its definition
 					if be, ok := e.(*ast.BinaryExpr); ok && be.Op == token.LAND {
 						split(be.X)
 						split(be.Y)
